@@ -661,6 +661,27 @@ func (c *SpecCtx) specCall(e *Expr) SV {
 		}
 		return mathInt(App(fun, SInt, args...))
 	}
+	if rs := c.tr.top.stateRecs[e.Name]; rs != nil {
+		if len(e.Args) != len(rs.Params) {
+			c.fail(e, "@%s expects %d arguments", e.Name, len(rs.Params))
+		}
+		if c.st.Mem == nil {
+			c.fail(e, "@%s used where no memory state is defined", e.Name)
+		}
+		args := []*Term{c.st.Mem}
+		for i, p := range rs.Params {
+			if rs.Like[p] != nil {
+				v := c.eval(e.Args[i])
+				if v.T == nil || len(v.L) == 0 {
+					c.fail(e, "@%s: argument %d must be a value (slice, pointer, ...)", e.Name, i+1)
+				}
+				args = append(args, v.L...)
+			} else {
+				args = append(args, c.evalInt(e.Args[i]))
+			}
+		}
+		return mathInt(App("sr_"+rs.Name, SInt, args...))
+	}
 	if rs := c.tr.top.recSpecs[e.Name]; rs != nil {
 		if len(rs.Params) != len(e.Args) {
 			c.fail(e, "@%s expects %d arguments", e.Name, len(rs.Params))
